@@ -3,6 +3,7 @@ package main
 import (
 	"encoding/binary"
 	"encoding/json"
+	"errors"
 	"fmt"
 	"net"
 	"os"
@@ -81,10 +82,10 @@ type wop struct {
 }
 
 func errCode(err error) int {
-	switch err {
-	case nil:
+	switch {
+	case err == nil:
 		return 0
-	case netutil.ErrInvalidIPv4CIDR:
+	case errors.Is(err, netutil.ErrInvalidIPv4CIDR): // a wrapped ErrInvalidIPv4CIDR is still that error
 		return 1
 	}
 	return 2
@@ -100,7 +101,8 @@ type round struct {
 	owned    [][]*rng
 	toggler  []wop
 	toggles  bool
-	zeroWord atomic.Uint64 // even: 0.0.0.0/0 certainly off; odd: may be on
+	zeroWord atomic.Uint64 // mod 4: 0 = 0.0.0.0/0 certainly off, 2 = certainly on, 1 / 3 = an Add / Remove of it is in progress
+	neighbours []uint32 // outside neighbours (first-1, last+1) of stable ranges that no stable range covers
 	started  atomic.Int64  // valid non-/0 Adds started / completed (the 257th is the migration)
 	done     atomic.Int64
 	stop     atomic.Bool
@@ -187,6 +189,22 @@ func runRound(e *hk.Env, seed uint64, n int, rnd *hk.Rng) {
 		rd.stable = append(rd.stable, r)
 		rd.started.Add(1)
 		rd.done.Add(1)
+	}
+
+	// outside neighbours of the stable ranges that nothing will ever cover
+	for _, r := range rd.stable {
+		for _, a := range []uint32{r.first() - 1, r.last() + 1} {
+			free := a>>24 != 10
+			for _, q := range rd.stable {
+				if a&q.mask() == q.first() {
+					free = false
+					break
+				}
+			}
+			if free {
+				rd.neighbours = append(rd.neighbours, a)
+			}
+		}
 	}
 
 	// ---- programs
@@ -290,18 +308,16 @@ func runRound(e *hk.Env, seed uint64, n int, rnd *hk.Rng) {
 			}
 			for k := range rd.toggler {
 				o := &rd.toggler[k]
-				if o.add {
-					rd.zeroWord.Add(1) // odd: may be on from now
-					rd.apply(o)
-				} else {
-					rd.apply(o)
-					rd.zeroWord.Add(1) // even: certainly off again
+				rd.zeroWord.Add(1) // 1 or 3: changing
+				rd.apply(o)
+				rd.zeroWord.Add(1) // 2: certainly on (after Add returned) / 0: certainly off (after Remove returned)
+				for y := 0; y < 1+int(yield[nW]>>uint(k%32)&15)*4; y++ { // leave the flag alone for a while
+					runtime.Gosched()
 				}
-				runtime.Gosched()
 			}
 		}()
 	}
-	type rstat struct{ lookups, stableTrue, neverFalse, churnTrue, churnFalse, atSwitch, undecided int }
+	type rstat struct{ lookups, stableTrue, neverFalse, churnTrue, churnFalse, atSwitch, undecided, zeroOnTrue, neighbourFalse int }
 	rstats := make([]rstat, nR)
 	for q := 0; q < nR; q++ {
 		rg.Add(1)
@@ -338,15 +354,20 @@ func runRound(e *hk.Env, seed uint64, n int, rnd *hk.Rng) {
 					probe = u32b(a)
 					kind = 0
 				case kind < 7: // never covered: 11.x.x.x, 200.x.x.x, and the gaps between the writers' blocks (10.<w>.255.x)
-					switch rr.Intn(3) {
-					case 0:
+					switch c := rr.Intn(5); {
+					case c >= 3 && len(rd.neighbours) > 0: // the address just outside a stable range
+						probe = u32b(rd.neighbours[rr.Intn(len(rd.neighbours))])
+						kind = 3
+					case c == 0:
 						probe = []byte{11, byte(rr.Intn(256)), byte(rr.Intn(256)), byte(rr.Intn(256))}
-					case 1:
+					case c == 1:
 						probe = []byte{200, byte(rr.Intn(256)), byte(rr.Intn(256)), byte(rr.Intn(256))}
 					default:
 						probe = []byte{10, byte(rr.Intn(nW)), 255, byte(rr.Intn(256))}
 					}
-					kind = 1
+					if kind != 3 {
+						kind = 1
+					}
 				default: // a range in churn
 					w := rr.Intn(nW)
 					r = rd.owned[w][rr.Intn(len(rd.owned[w]))]
@@ -368,7 +389,8 @@ func runRound(e *hk.Env, seed uint64, n int, rnd *hk.Rng) {
 				}
 				s2 := rd.started.Load()
 				z2 := rd.zeroWord.Load()
-				zeroOff := z1 == z2 && z1%2 == 0
+				zeroOff := z1 == z2 && z1%4 == 0
+				zeroOn := z1 == z2 && z1%4 == 2
 				st.lookups++
 				if d1 <= 256 && s2 >= 257 {
 					st.atSwitch++
@@ -377,13 +399,22 @@ func runRound(e *hk.Env, seed uint64, n int, rnd *hk.Rng) {
 					rd.violation("panic-in-Contains", probe, r, false, false, "")
 					continue
 				}
+				if zeroOn { // 0.0.0.0/0 present for the whole call: everything is inside it
+					st.zeroOnTrue++
+					if !got {
+						rd.violation("zero-present-throughout-missed", probe, r, got, true, fmt.Sprintf("zero_word=%d", z1))
+					}
+				}
 				switch kind {
 				case 0:
 					st.stableTrue++
 					if !got {
 						rd.violation("stable-range-missed", probe, r, got, true, fmt.Sprintf("adds_done_before=%d adds_started_after=%d", d1, s2))
 					}
-				case 1:
+				case 1, 3:
+					if zeroOff && kind == 3 {
+						st.neighbourFalse++
+					}
 					if zeroOff {
 						st.neverFalse++
 						if got {
@@ -484,6 +515,8 @@ func runRound(e *hk.Env, seed uint64, n int, rnd *hk.Rng) {
 		e.Count("lookups_asserted_present_throughout_true", st.churnTrue)
 		e.Count("lookups_asserted_absent_throughout_false", st.churnFalse)
 		e.Count("lookups_undecided", st.undecided)
+		e.Count("lookups_asserted_zero_present_throughout_true", st.zeroOnTrue)
+		e.Count("lookups_asserted_stable_outside_neighbour_false", st.neighbourFalse)
 		e.Count("lookups_overlapping_switch_window", st.atSwitch)
 		if st.atSwitch > 0 {
 			e.Count("reader_goroutines_with_lookup_at_switch", 1)
